@@ -45,18 +45,26 @@ RE_TAGGED = lambda tag: re.compile(r'<<\s*"' + tag + r'",\s*"((?:[^"\\]|\\.)*)"\
 RE_STATS = re.compile(r"(\d+) states generated, (\d+) distinct states found")
 RE_DEPTH = re.compile(r"depth of the complete state graph search is (\d+)")
 RE_USED = re.compile(r'<<\s*"USED",\s*"([^"]*)",\s*\{([^}]*)\}\s*>>', re.S)
+RE_FAILED = re.compile(r'<<\s*"FAILED",\s*"([^"]*)",\s*(\d+)\s*>>')
 RE_RESULT = re.compile(r'<<\s*"TRACE_RESULT",\s*(\d+),\s*(\d+)\s*>>')
 
 
 def setup(root):
-    """build the harness once and syntax-check every specification"""
+    """build the harness (lib + every binary) once and syntax-check every specification.
+    Only a failing library build is fatal: a binary or spec that is broken makes its own check fail, not the others."""
     t0 = time.time()
-    rc, out = sh(["cargo", "build", "--offline"], cwd=os.path.join(root, "harness"), timeout=3600)
-    print(out[-3000:])
+    hdir = os.path.join(root, "harness")
+    rc, out = sh(["cargo", "build", "--offline", "--lib"], cwd=hdir, timeout=3600)
+    print(out[-2000:])
     if rc != 0:
-        print("setup: harness build failed")
+        print("setup: harness library build failed")
         return 2
-    bad = 0
+    bins = sorted(f[:-3] for f in os.listdir(os.path.join(hdir, "src", "bin")) if f.endswith(".rs"))
+    for b in bins:
+        rc, out = sh(["cargo", "build", "--offline", "--bin", b], cwd=hdir, timeout=3600)
+        print("build", b, "ok" if rc == 0 else "FAILED")
+        if rc != 0:
+            print(out[-1500:])
     spec = os.path.join(root, "spec")
     for f in sorted(os.listdir(spec)):
         if f.endswith(".tla"):
@@ -65,9 +73,8 @@ def setup(root):
             print("sany", f, "ok" if ok else "FAILED")
             if not ok:
                 print(out[-1500:])
-                bad += 1
     print("setup done in %.0fs" % (time.time() - t0))
-    return 0 if bad == 0 else 2
+    return 0
 
 
 class Ctx:
@@ -229,7 +236,9 @@ class Ctx:
             f.write("".join(lines))
         env = {"TRACE": tp, "JAVA_TOOL_OPTIONS": "-Xss1g"}
         rc, out, dt = self.tlc(module, cfg_text, name, workers=1, timeout=timeout, env=env, xmx="2g")
-        res = {"rc": rc, "out": out, "n": len(lines), "dt": dt, "used": {}, "reached": None, "invariant": None}
+        res = {"rc": rc, "out": out, "n": len(lines), "dt": dt, "used": {}, "failed": {}, "reached": None, "invariant": None}
+        for fsid, fl in RE_FAILED.findall(out):
+            res["failed"][fsid] = max(res["failed"].get(fsid, 0), int(fl))
         for sid, body in RE_USED.findall(out):
             names = set(re.findall(r'"([^"]+)"', body))
             if sid not in res["used"] or len(names) < len(res["used"][sid]):
@@ -274,35 +283,41 @@ class Ctx:
         self.sample({"trace_events": [json.loads(x) for x in groups[0][:3]]})
 
         def work(ci):
-            mine = list(chunks[ci])
-            fails = []
-            used = {}
-            for attempt in range(max_fail + 1):
-                flat = [ln for g in mine for ln in g] + [END]
+            todo = list(chunks[ci])      # groups not yet judged
+            fails, used, nscripts, nevents = [], {}, 0, 0
+            for attempt in range(max_fail + 2):
+                if not todo:
+                    break
+                flat = [ln for g in todo for ln in g] + [END]
                 r = self._validate_chunk(module, cfg_text, flat, "%s.v%d" % (name, ci), timeout)
                 if r.get("timeout"):
                     return {"error": "trace validation timed out (chunk %d)" % ci}
                 if r["reached"] is None:
                     return {"error": "trace validation produced no result (chunk %d):\n%s" % (ci, strip_scripts(r["out"])[-2500:])}
-                ok = r["reached"] == len(flat) + 1 and not r["invariant"]
-                if ok:
-                    used.update(r["used"])
-                    return {"fails": fails, "used": used, "scripts": len(mine), "events": len(flat) - len(mine) - 1}
-                # locate the failing script: event index (1-based) of first unexplained event
-                bad = r["reached"] if not r["invariant"] else max(1, r["reached"])
-                pos, gi_ = 0, None
-                for k, g in enumerate(mine):
-                    if pos < bad <= pos + len(g):
-                        gi_ = k
-                        break
+                complete = r["reached"] == len(flat) + 1 and not r["invariant"]
+                starts, pos = [], 0
+                for g in todo:
+                    starts.append(pos)
                     pos += len(g)
-                if gi_ is None:
-                    return {"error": "cannot locate failing event %s in chunk %d" % (bad, ci)}
-                g = mine.pop(gi_)
-                fails.append({"group": g, "event_index": bad - pos, "invariant": r["invariant"]})
-                if not mine:
-                    return {"fails": fails, "used": used, "scripts": 0, "events": 0}
-            return {"fails": fails, "used": used, "scripts": 0, "events": 0, "gave_up": True}
+                rest = []
+                stop_at = r["reached"] if not r["invariant"] else max(1, r["reached"])
+                for k, g in enumerate(todo):
+                    gsid = json.loads(g[0]).get("sid")
+                    if gsid in r["used"]:
+                        used[gsid] = r["used"][gsid]
+                        nscripts += 1
+                        nevents += len(g) - 1
+                    elif complete:
+                        fl = r["failed"].get(gsid)
+                        fails.append({"group": g, "event_index": (fl - starts[k]) if fl else 1, "invariant": None})
+                    elif starts[k] < stop_at <= starts[k] + len(g):
+                        fails.append({"group": g, "event_index": stop_at - starts[k], "invariant": r["invariant"]})
+                    else:
+                        rest.append(g)
+                todo = rest
+                if len(fails) > 200:
+                    break
+            return {"fails": fails, "used": used, "scripts": nscripts, "events": nevents, "unjudged": len(todo)}
 
         t = time.time()
         with cf.ThreadPoolExecutor(max_workers=njobs) as ex:
@@ -322,6 +337,10 @@ class Ctx:
             for fl in r["fails"]:
                 fails.append(fl)
                 self._record_violation(name, fl)
+        unj = sum(r.get("unjudged", 0) for r in results)
+        if unj:
+            self.log("WARNING: %d scripts left unjudged after too many rejections" % unj)
+            self.cov["unjudged_scripts"] = self.cov.get("unjudged_scripts", 0) + unj
         self.log("validated %s: %d scripts / %d events in %d JVMs, %d rejected, %.1fs" % (
             name, sum(r["scripts"] for r in results), sum(r["events"] for r in results), njobs, len(fails), time.time() - t))
         if selftest and not fails:
@@ -364,13 +383,15 @@ class Ctx:
                     break
         if not ok:
             raise ToolError("binding self-test: nothing to corrupt in " + name)
+        what = ev.pop("_corrupted", "?")
         g[idx] = json.dumps(ev) + "\n"
         flat = g + ['{"ev":"reset","sid":"end"}\n']
         r = self._validate_chunk(module, cfg_text, flat, name + ".selftest", timeout)
-        rejected = r["reached"] is not None and (r["reached"] != len(flat) + 1 or r["invariant"])
-        self.cov["binding_selftest"].append({"check": name, "corrupted_event": idx, "rejected": bool(rejected)})
+        gsid = json.loads(g[0]).get("sid")
+        rejected = r["reached"] is not None and (r["reached"] != len(flat) + 1 or r["invariant"] or gsid not in r["used"])
+        self.cov["binding_selftest"].append({"check": name, "corrupted_event": idx, "field": what, "rejected": bool(rejected)})
         if not rejected:
-            raise ToolError("binding self-test failed: corrupted trace of %s was accepted: %s" % (name, g[idx][:500]))
+            raise ToolError("binding self-test failed: corrupted trace of %s was accepted (field %s): %s" % (name, what, g[idx][:300]))
         self.log("binding self-test %s: corrupted event %d rejected (ok)" % (name, idx))
 
     def tlaps(self, rel, timeout=900):
@@ -428,7 +449,8 @@ class Ctx:
 
 
 def strip_scripts(out):
-    return "\n".join(ln for ln in out.splitlines() if not ln.startswith('<<"SCRIPT"') and not ln.startswith('<<"USED"'))
+    return "\n".join(ln for ln in out.splitlines()
+                     if not ln.startswith('<<"SCRIPT"') and not ln.startswith('<<"USED"') and not ln.startswith('<<"FAILED"'))
 
 
 def default_corrupt(ev, rng):
@@ -456,6 +478,7 @@ def default_corrupt(ev, rng):
     if not paths:
         return False
     p, v = paths[rng.randrange(len(paths))]
+    ev["_corrupted"] = "/".join(str(k) for k in p)
     if not p:
         ev["obs"] = mutate(v)
         return True
@@ -474,3 +497,26 @@ def mutate(v):
     if isinstance(v, str):
         return v + "~"
     return v
+
+
+def corrupt_field(*path):
+    """corruptor that bumps one named scalar under ev['obs'] (for specs where some logged fields are legitimately unconstrained)"""
+    def f(ev, rng):
+        cur = ev.get("obs")
+        if cur is None:
+            return False
+        for k in path[:-1]:
+            if isinstance(cur, dict) and k in cur:
+                cur = cur[k]
+            elif isinstance(cur, list) and isinstance(k, int) and k < len(cur):
+                cur = cur[k]
+            else:
+                return False
+        k = path[-1]
+        try:
+            cur[k] = mutate(cur[k])
+        except (KeyError, IndexError, TypeError):
+            return False
+        ev["_corrupted"] = "/".join(str(x) for x in path)
+        return True
+    return f
